@@ -98,8 +98,8 @@ PROPS = {
         "targets": ["sched"],
         "level": "exploration",
         "lanes": [
-            lane("asan", "psv_sched.asan", 6000, 400000, 0, 100),
-            lane("race", "psv_sched.race", 1500, 100000, 1000000000, 100),
+            lane("asan", "psv_sched.asan", 10000, 400000, 0, 100),
+            lane("race", "psv_sched.race", 2500, 100000, 1000000000, 100),
         ],
         "budget_s": {"quick": 45, "thorough": 780},
         "rule": "one run = one whole splinetable::fit(..., monodim) on a generated data set (increasing / noisy / decreasing / oscillating / constant / negative / step / random; 1..3 dims, "
